@@ -8,13 +8,17 @@ def harnesses(tier):
         H.append(BHarness('I_interact_%dx%dx%d' % s, 'c02_interact.cpp', 'h_interact', defs=['NCX=%d' % s[0], 'NCY=%d' % s[1], 'NCZ=%d' % s[2]], cflags=['-fopenmp'], timeout=1700, maxsteps=3000000, maxpaths=200000, split=12, strict=True,
             what='DensitySubGrid::interact (entry INSIDE) against the textbook march as specification, on every feasible path: visited cells and their order, wall distances and their minimum, optical depth used = sum n*sum(sigma_i x_i)*l over visited cells, stop INSIDE exactly when the target is reached (with the surplus correction), exit classification = the walls actually crossed, final position exactly on the crossed walls, each visited cell\'s mean-intensity and heating estimators grow by weight*sigma*path (x excess energy) exactly once, other cells untouched, no cell visited twice, no more cells than a straight line can cross',
             bound='block of %dx%dx%d cells; start position, direction (all 27 sign patterns incl. axis-aligned), cell sizes, anchor, per-cell density / H,He neutral fractions / initial estimators, cross sections, weight, energy, target optical depth symbolic; magnitudes 0 or in [2^-60,2^60]' % s))
+    if tier == 'thorough':
+        H.append(BHarness('I_propagate_eq_interact_1x1x1', 'c02_interact.cpp', 'h_propagate', defs=['NCX=1', 'NCY=1', 'NCZ=1'], cflags=['-fopenmp'], timeout=1700, maxsteps=3000000, maxpaths=200000, split=12, strict=True,
+            what='DensitySubGrid::propagate is interact without deposition: run on the same packet it returns the same exit classification, final position and remaining optical depth (identical terms on every path) and leaves every cell estimator untouched',
+            bound='single-cell block, all inputs symbolic as in I_interact'))
     return H
 
 def run(tier, only=None):
     ev = Evidence('C02', tier); work = Work('C02')
     ev.assumptions += ['IEEE-UF term level: path lengths, optical depths and estimator increments are compared as TERMS with the specification (same operands, same operations); ties between wall distances are explored as separate paths (edge/corner exits)',
                        'the start cell is the cell the code computes from the start position (assumed consistent with the chosen cell)', 'entry classification INSIDE (packets created in the block); entry through faces/edges/corners is C03-T2']
-    ev.outside += ['the two real-number equalities with a tolerance (path lengths sum to the chord, optical depth equals the integral): term identities are decided instead', 'blocks with more than one cell (2x1x1 attempted, not discharging: see DESIGN.md 8.2)', 'subnormal direction components (1/d = inf)', 'propagate() and compute_optical_depth()']
+    ev.outside += ['the two real-number equalities with a tolerance (path lengths sum to the chord, optical depth equals the integral): term identities are decided instead', 'blocks with more than one cell (2x1x1 attempted, not discharging: see DESIGN.md 8.2)', 'subnormal direction components (1/d = inf)', 'compute_optical_depth(); propagate() is compared with interact() in the thorough tier only']
     try:
         hb = [h for h in harnesses(tier) if not only or h.name.startswith(only)]
         violations, broken = run_engine_b('C02', tier, hb, ev, work)
